@@ -6,6 +6,8 @@ From Verif Require Import Base.Wire TaxId.Common TaxId.Regimes TaxId.CommonProof
 Import ListNotations.
 Open Scope Z_scope.
 Ltac Zify.zify_post_hook ::= Z.div_mod_to_equations.
+(* conversion: unfold the model's definitions before integer arithmetic (keeps Qed fast) *)
+Local Strategy 100 [Z.add Z.mul Z.sub Z.opp Z.modulo Z.div Z.eqb Z.ltb Z.leb Z.pow dv bZ].
 
 Definition br_W1 : list Z := [5; 4; 3; 2; 9; 8; 7; 6; 5; 4; 3; 2; 1; 0].
 Definition br_W2 : list Z := [6; 5; 4; 3; 2; 9; 8; 7; 6; 5; 4; 3; 2; 1].
